@@ -19,7 +19,9 @@ NUM = 9
 RULE = ("cases = 1-6 recordings (optionally mixed time steps) x processing method (9 frequency-domain names, single "
         "azimuth, RotDpp, azimuthal, diffuse field, PSD with smoothing on/off) x Tukey width x history (process twice; "
         "process with method A then method B on the same recordings; interleaved settings objects) followed by in-place "
-        "and by-assignment mutation of every array/list/dict reachable from the recordings and the settings; "
+        "and by-assignment mutation of every array/list/dict reachable from the recordings and the settings; plus a family "
+        "aimed at the FFT length that process() leaves in the settings object (fft_settings={'n': None}; an interleaved call "
+        "on recordings longer than 2^15 samples) with a mechanism test (fresh settings reproduce run 1, pinned FFT length run 2); "
         "non-trivial = Tukey width > 0 (an in-place taper is invisible for width 0); distinct = (method, alpha, n "
         "recordings, dts, history kind) signatures")
 ASSUMPTIONS = [
@@ -219,4 +221,46 @@ def fam_history(ctx, rng):
     ctx.state([cfg["kind"], cfg["alpha"] > 0, hist])
 
 
-FAMILIES = [("history", fam_history)]
+def fam_fft_length_persistence(ctx, rng):
+    """The FFT length that process() writes into the caller's settings object: repeated / interleaved calls with the
+    SAME settings object must still return identical results for the same recordings."""
+    import hvsrpy
+    items, dt, n = gen_items(rng)
+    kind = str(rng.choice(["freq", "single", "rotdpp", "azimuthal"]))
+    cfg = gen_cfg(rng, dt, n, kind)
+    variant = str(rng.choice(["n-none", "interleaved-longer-recordings"]))
+    cfg["user_n"] = None
+    ctx.describe(n_recordings=len(items), dt=dt, n=n, variant=variant, **cfg)
+
+    def recs_of(its):
+        return [gen.make_recording(np.array(it[0]), np.array(it[1]), np.array(it[2]), it[3]) for it in its]
+    st = make_settings(cfg)
+    if variant == "n-none":
+        st.fft_settings = {"n": None}
+    pristine = copy.deepcopy(st)
+    recs = recs_of(items)
+    try:
+        with np.errstate(all="ignore"):
+            r1 = snap.snap(result_numeric(hvsrpy.process(recs, st)))
+            if variant == "interleaved-longer-recordings":
+                long_items = [tuple(gen.recording_arrays(rng, 33000, "white", 1.0)) + (dt,)]
+                hvsrpy.process(recs_of(long_items), st)
+            fft_now = copy.deepcopy(st.fft_settings)
+            r2 = snap.snap(result_numeric(hvsrpy.process(recs, st)))
+            # is the difference explained by nothing but the FFT length left in the settings object?
+            fresh = snap.snap(result_numeric(hvsrpy.process(recs_of(items), copy.deepcopy(pristine))))
+            pinned = copy.deepcopy(pristine)
+            pinned.fft_settings = copy.deepcopy(fft_now)
+            r_pinned = snap.snap(result_numeric(hvsrpy.process(recs_of(items), pinned)))
+    except ValueError:
+        ctx.count("process_refused")
+        return
+    ctx.count("process_calls", 4)
+    explained = (fresh == r1) and (r_pinned == r2)
+    ctx.check(r1 == r2, "repeatable", "the same recordings processed again with the same settings object give a different result",
+              mechanism=variant, explained_by_persisted_fft_length=bool(explained), fft_settings_left_in_object=fft_now,
+              method=cfg["method"], differences=snap.diff(r1, r2)[:3])
+    ctx.nontrivial([variant, cfg["method"], len(items), n, dt])
+
+
+FAMILIES = [("history", fam_history), ("history-2", fam_history), ("fft-length-persistence", fam_fft_length_persistence)]
